@@ -2,6 +2,7 @@ package rules
 
 import (
 	"go/ast"
+	"go/constant"
 	"go/token"
 	"go/types"
 
@@ -21,6 +22,7 @@ func init() {
 		connReadEffects(c, "C15.10")
 		connWriteEffects(c, "C15.11")
 		errPolarity(c, "C15.9", "webtransport")
+		lockBalance(c, "C15.12", "webtransport") // an unlock of a mutex that is not held is a fatal runtime error, a leaked one hangs every later write
 		c15Panics(c)
 		c15IndexSafety(c)
 		wtPeekValidity(c, "C15.2b")
@@ -482,20 +484,27 @@ func wtReadLimit(c *core.Ctx, R string) {
 		}
 		c.Check(R, wtAdvance+"/limit-edge", limitBr.Cond.Pos(), closeOK && retOK, keyf("over-limit edge closes the session (%v) and returns ErrReadLimit (%v)", closeOK, retOK))
 	}
-	// data-type test false edge
-	notData := func(u *core.Unit, br core.Branch) int {
-		cmp, ok := u.BranchCmp(br)
-		if !ok || !isLocal(u.Info(), cmp.X, "frameType") || cmp.Val == nil {
+	// data-type test: the edge on which frameType differs from the data type with value v
+	notType := func(v int64) core.Guard {
+		return func(u *core.Unit, br core.Branch) int {
+			cmp, ok := u.BranchCmp(br)
+			if !ok || !isLocal(u.Info(), cmp.X, "frameType") || cmp.Val == nil {
+				return 0
+			}
+			if k, exact := constant.Int64Val(constant.ToInt(cmp.Val)); !exact || k != v {
+				return 0
+			}
+			switch cmp.Op {
+			case token.EQL:
+				return -1 // false edge: frameType differs from that data type
+			case token.NEQ:
+				return 1 // `frameType != TextMessage && frameType != BinaryMessage { return … }`
+			}
 			return 0
 		}
-		switch cmp.Op {
-		case token.EQL:
-			return -1 // false edge: frameType differs from that data type
-		case token.NEQ:
-			return 1 // `frameType != TextMessage && frameType != BinaryMessage { return … }`
-		}
-		return 0
 	}
+	textV, _ := pkgConstInt(c, "webtransport", "TextMessage")
+	binV, _ := pkgConstInt(c, "webtransport", "BinaryMessage")
 	n := 0
 	for _, r := range returnsIn(adv) {
 		if len(r.Stmt.Results) != 2 || !core.IsNil(info, r.Stmt.Results[1]) {
@@ -506,7 +515,7 @@ func wtReadLimit(c *core.Ctx, R string) {
 		}
 		n++
 		viaChecks := acc != nil && limitBr != nil && g.Dominates(acc.Loc, r.Loc) && g.GuardedBy(r.Loc, overflowPass) && g.EdgeDominates(limitBr.B, 1, r.Loc)
-		viaNonData := g.GuardedBy(r.Loc, notData)
+		viaNonData := g.GuardedBy(r.Loc, notType(textV)) && g.GuardedBy(r.Loc, notType(binV)) // neither data type: both excluded, not just one
 		c.Check(R, keyf("%s/success-return#%d", wtAdvance, n), r.Stmt.Pos(), viaChecks || viaNonData,
 			keyf("through accumulation+overflow+limit pass edges=%v; non-data edge (infeasible: type ∈ {1,2})=%v", viaChecks, viaNonData))
 	}
